@@ -5,7 +5,11 @@ Spec: spec/Lookup.tla (over DwarfForms.tla / Bytes.tla).  G only:
        address (+ far below / far above) and .entries (as a bag) against CuAt / the entries view;
   nm   every table of the name-set writer, handed over as .debug_pubnames and as .debug_pubtypes ->
        mapping interface (iteration order, items, in, len, [], get), get_cu_headers under three
-       first-access orders, get_DIE_from_lut_entry forwards and backwards on fresh objects;
+       first-access orders, get_DIE_from_lut_entry forwards and backwards on fresh objects; tables in which a name is
+       published more than once (tag dup): key set, number of keys, the order facts that hold whichever occurrence a map
+       keeps (prec), value = one of the encoded occurrences and the same through every access path, that occurrence's DIE;
+       which occurrence the library keeps is counted (extra.dup_policy_observed), not asserted (C13_DUP_POLICY=first|last
+       asserts it, for whoever judges one of them to be fixed);
   h    every finished history of the unit-cache machine replayed on a fresh DWARFInfo
        (get_CU_at / get_CU_containing / iter_CUs steps), each answer against the spec's answer.
 Expected values are the ones TLC wrote; this file concretises bytes, calls the API, compares."""
@@ -82,7 +86,7 @@ def _hdrs(lut):
     return [[h.unit_length, h.version, h.debug_info_offset, h.debug_info_length] for h in lut.get_cu_headers()]
 
 
-def _nm(run, case, sec):
+def _nm(run, case, sec, policy):
     tag = case['tag']
     data = bytes(case['b'])
     names = [(bytes(n), cu, die, code) for n, cu, die, code in case['names']]
@@ -93,7 +97,8 @@ def _nm(run, case, sec):
         di = _mk(sec['le'], info=sec['info_b'], abbrev=sec['abbrev_b'], **{which: data})
         get = di.get_pubnames if which == 'pubnames' else di.get_pubtypes
         try:
-            _nm_one(get, di, sec, names, case['hdrs'], tag, bad, which == 'pubnames')
+            _nm_one(get, di, sec, names, case['hdrs'], tag, bad, which == 'pubnames',
+                    {'nk': case['nk'], 'prec': case['prec'], 'f1': case['f1'], 'fl': case['fl'], 'policy': policy})
         except Exception as ex:
             import traceback
             tb = traceback.extract_tb(ex.__traceback__)
@@ -101,22 +106,14 @@ def _nm(run, case, sec):
                                                                    tb[-1].filename.split('/')[-1], tb[-1].lineno))
 
 
-def _nm_one(get, di, sec, names, hdrs, tag, bad, with_dies):
+def _nm_one(get, di, sec, names, hdrs, tag, bad, with_dies, extra):
     want_keys = [n for n, _, _, _ in names]
     want_items = [[n, cu, die] for n, cu, die, _ in names]
     # order 1: iteration first
     lut = get()
     keys = [k.encode('utf-8') for k in lut]
     if tag.startswith('dup'):
-        # duplicate names: a mapping cannot hold them all; only the key set and the candidates are asserted
-        if set(keys) != set(want_keys) or len(keys) != len(set(keys)):
-            bad('keys', sorted(set(want_keys)), keys)
-        for k, v in lut.items():
-            cands = [[cu, die] for n, cu, die, _ in names if n == k.encode('utf-8')]
-            if [v.cu_ofs, v.die_ofs] not in cands:
-                bad('value', cands, [v.cu_ofs, v.die_ofs])
-        if _hdrs(lut) != hdrs:
-            bad('get_cu_headers', hdrs, _hdrs(lut))
+        _nm_dup(get, di, sec, names, hdrs, extra, bad, with_dies, lut, keys)
         return
     if keys != want_keys:
         bad('keys', want_keys, keys)
@@ -160,6 +157,95 @@ def _nm_one(get, di, sec, names, hdrs, tag, bad, with_dies):
                 obs = [dd.offset, dd.abbrev_code, dd.cu.cu_offset]
                 if obs != [die, code, cu]:
                     bad('get_DIE_from_lut_entry.' + order, [die, code, cu], obs)
+
+
+def _nm_dup(get, di, sec, names, hdrs, extra, bad, with_dies, lut, keys):
+    """A name published more than once: a mapping has one slot per name.  Asserted: what holds whichever occurrence it keeps."""
+    want = set(n for n, _, _, _ in names)
+    cands = {}
+    for n, cu, die, code in names:
+        cands.setdefault(n, []).append([cu, die, code])
+    prec = [(bytes(x), bytes(y)) for x, y in extra['prec']]
+
+    def order_ok(ks):
+        pos = {k: i for i, k in enumerate(ks)}
+        return all(pos[x] < pos[y] for x, y in prec if x in pos and y in pos)
+
+    def pick(k, v):
+        """the encoded occurrence a value stands for (None: not an occurrence of that name)"""
+        for c in cands.get(k, []):
+            if [v.cu_ofs, v.die_ofs] == c[:2]:
+                return c
+        return None
+    # order 1: iteration first
+    if set(keys) != want or len(keys) != len(set(keys)):
+        bad('keys', sorted(want), keys)
+        return
+    if not order_ok(keys):
+        bad('order', sorted(prec), keys)
+    held = {}
+    for k, v in lut.items():
+        kb = k.encode('utf-8')
+        if pick(kb, v) is None:
+            bad('value', [c[:2] for c in cands.get(kb, [])], [v.cu_ofs, v.die_ofs])
+            return
+        held[kb] = (v.cu_ofs, v.die_ofs)
+    if [k.encode('utf-8') for k, _ in lut.items()] != keys or [k.encode('utf-8') for k in lut.keys()] != keys:
+        bad('keys()', keys, [k.encode('utf-8') for k in lut.keys()])
+    if len(lut) != extra['nk']:
+        bad('len', extra['nk'], len(lut))
+    if _hdrs(lut) != hdrs:
+        bad('get_cu_headers', hdrs, _hdrs(lut))
+    # one object, one answer: [], get, items agree
+    for kb in keys:
+        s = kb.decode('utf-8')
+        e1, e2 = lut[s], lut.get(s)
+        if not (tuple(e1) == tuple(e2) == held[kb]):
+            bad('getitem', list(held[kb]), [list(e1), list(e2)])
+    # order 2: headers first on a fresh table, then point lookups (every encoded occurrence's name, last to first)
+    lut2 = get()
+    if _hdrs(lut2) != hdrs:
+        bad('get_cu_headers.first', hdrs, _hdrs(lut2))
+    for n, _, _, _ in reversed(names):
+        s = n.decode('utf-8')
+        if s not in lut2:
+            bad('contains', True, False)
+            continue
+        e1, e2 = lut2[s], lut2.get(s)
+        if pick(n, e1) is None or tuple(e1) != tuple(e2):
+            bad('getitem', [c[:2] for c in cands[n]], [list(e1), list(e2)])
+    # order 3: membership / len first on a fresh table; absent names
+    lut3 = get()
+    absent = 'no such name'
+    if absent in lut3 or lut3.get(absent) is not None or lut3.get(absent, 5) != 5:
+        bad('absent', 'absent', 'present')
+    if len(lut3) != extra['nk']:
+        bad('len.first', extra['nk'], len(lut3))
+    k3 = [k.encode('utf-8') for k in lut3]
+    if set(k3) != want or len(k3) != len(want) or not order_ok(k3):
+        bad('keys.after', sorted(want), k3)
+    # the kept occurrence resolves to that occurrence's DIE
+    if with_dies:
+        for order, d in (('fwd', di), ('rev', _mk(sec['le'], info=sec['info_b'], abbrev=sec['abbrev_b']))):
+            for kb in (keys if order == 'fwd' else list(reversed(keys))):
+                v = lut[kb.decode('utf-8')]
+                cu, die, code = pick(kb, v)
+                dd = d.get_DIE_from_lut_entry(v)
+                obs = [dd.offset, dd.abbrev_code, dd.cu.cu_offset]
+                if obs != [die, code, cu]:
+                    bad('get_DIE_from_lut_entry.' + order, [die, code, cu], obs)
+    # which occurrence is kept: spec-marked first / last occurrence of every name; counted, asserted only on request
+    first = {n: (cu, die) for (n, cu, die, _), f in zip(names, extra['f1']) if f}
+    last = {n: (cu, die) for (n, cu, die, _), f in zip(names, extra['fl']) if f}
+    pol = extra['policy']
+    for kb in keys:
+        if first[kb] == last[kb]:
+            continue                        # published once, or twice for the same entry
+        obs = 'first' if held[kb] == first[kb] else 'last' if held[kb] == last[kb] else 'other'
+        pol['seen'][obs] = pol['seen'].get(obs, 0) + 1
+        if pol['assert'] and obs != pol['assert']:
+            bad('dup-policy', {'policy': pol['assert'], 'value': list((first if pol['assert'] == 'first' else last)[kb])},
+                {'policy': obs, 'value': list(held[kb])})
 
 
 # ------------------------------------------------------------------ (c) unit lookup histories
@@ -212,9 +298,12 @@ def check(run):
                 'first touches + one probe at every offset -1..size+1; non-trivial = at least one tuple / one name / one lookup; '
                 'distinct by emitted bytes (ar, nm) or by the history itself (h)')
     run.assumptions += ['every generated aranges set starts at a multiple of its tuple size (Unaligned = FALSE): padding from the '
-                        'section start and from the set start coincide (DWARF5 6.1.2 does not name the origin)',
+                        'section start and from the set start coincide (DWARF 2-5 6.1.2/7.21 do not name the origin; producers and most readers '
+                        'measure from the set start, GDB and the library from the section start; C13_UNALIGNED=section|set runs either reading)',
                         'ARanges.entries compared as a bag (the property does not fix its order)',
-                        'tables with duplicate names (tag dup): only key set and membership of the value in the encoded candidates',
+                        'tables in which a name is published more than once (tag dup): key set, key count, order facts that hold '
+                        'whichever occurrence is kept, value = one encoded occurrence, the same through every access path; WHICH '
+                        'occurrence (first / last) is not fixed by the property, DWARF 6.1.1 or namelut.py\'s docstrings: not asserted',
                         'lookups outside .debug_info: any exception or None is accepted as "no unit"',
                         'names are UTF-8 (observed str keys are compared after .encode("utf-8") with the encoded bytes)',
                         'name sets may carry padding between their terminator and the end of unit_length (tag +pad): the next set '
@@ -223,8 +312,12 @@ def check(run):
     if run.tier != 'quick':
         runs.append(('Lookup_sim', 3000, 12))
     if os.environ.get('C13_UNALIGNED'):
-        # not part of any tier: sets starting at offsets that are not multiples of their tuple size (see Lookup.tla header)
-        runs.append(('Lookup_unaligned', None, None))
+        # not part of any tier: sets starting at offsets that are not multiples of their tuple size (see Lookup.tla header);
+        # C13_UNALIGNED=section: written with the section-relative reading of the tuple alignment, anything else: set-relative
+        runs.append(('Lookup_unaligned_section' if os.environ['C13_UNALIGNED'] == 'section' else 'Lookup_unaligned', None, None))
+    policy = {'seen': {}, 'assert': os.environ.get('C13_DUP_POLICY') or None}
+    if policy['assert'] not in (None, 'first', 'last'):
+        raise core.MachineryError('C13_DUP_POLICY must be first or last')
     kinds = {}
     qclasses = {}
     seen = set()
@@ -253,7 +346,7 @@ def check(run):
         for c in cases:
             k = c['k']
             if k == 'ar':
-                key = ('ar', c['ctx'], bytes(c['b']))
+                key = ('ar', c['ctx'], ctxs[c['ctx']].get('org', 'set'), bytes(c['b']))
                 nontriv = bool(c['ent'])
             elif k == 'nm':
                 key = ('nm', c['sec'], bytes(c['b']))
@@ -273,7 +366,7 @@ def check(run):
                     run.samples.append({'kind': 'aranges', 'ctx': c['ctx'], 'bytes': c['b'], 'entries(grid begin,len,set)': c['ent'],
                                         'sets(unit_length,version,asz,seg,cu)': c['sets'], 'answers(set index per grid address)': c['ans']})
             elif k == 'nm':
-                _nm(run, c, secs[c['sec']])
+                _nm(run, c, secs[c['sec']], policy)
                 if kinds[k] == 700:
                     run.samples.append({'kind': 'names', 'sec': c['sec'], 'bytes': c['b'], 'names(name,cu_ofs,die_ofs,code)': c['names'],
                                         'headers': c['hdrs']})
@@ -285,6 +378,7 @@ def check(run):
     run.validated = run.evaluations
     run.extra['cases_by_kind'] = kinds
     run.extra['aranges_queries_by_position_class'] = qclasses
+    run.extra['dup_policy_observed'] = policy['seen']
     run.extra['exhaustive'] = True
     if not run.samples:
         run.samples.append({'note': 'no sample'})
